@@ -122,6 +122,7 @@ fn main() {
         "C16" => dispatch(&props::c16::C16, &mode, &opts),
         "C17" => dispatch(&props::c17::C17, &mode, &opts),
         "C19" => dispatch(&props::c19::C19, &mode, &opts),
+        "C20" => dispatch(&props::c20::C20, &mode, &opts),
         other => {
             eprintln!("unknown property {other}");
             2
